@@ -130,6 +130,17 @@ func (node *Node) processUnconfirmedTx(ctx context.Context, tx handlers.TxData) 
 		}
 
 		if err := fetchSpentOutputs(ctx, node.store, node.outputFetcher, txState); err != nil {
+			// The tx was not delivered, so it can't stay recorded as if it was.
+			node.txs.Remove(ctx, *hash, -1)
+			node.memPool.RemoveTransaction(*hash)
+
+			if !tx.Trusted {
+				// Any peer can send a tx that spends outputs that don't exist. That is no reason
+				// to stop.
+				logger.Warn(ctx, "Dropping tx with unknown spent outputs : %s : %s", hash, err)
+				return nil
+			}
+
 			return errors.Wrap(err, "fetch outputs")
 		}
 	} else {
